@@ -109,7 +109,7 @@ def run_getitem(repo, qual, wrapper=False):
     return log
 
 
-@rule("C08.key-provenance", props=["C08", "C10", "C13", "C02"], min_instances=6, mutants=[
+@rule("C08.key-provenance", props=["C08", "C10", "C13", "C02", "C04", "C11"], min_instances=6, mutants=[
     ("operands created with sorted keys", ("operator_dict", "            mv = self.algebra.multivector(name='a', keys=keys_in, symbolcls=self.codegen_symbolcls)", "            mv = self.algebra.multivector(name='a', keys=tuple(sorted(keys_in)), symbolcls=self.codegen_symbolcls)")),
     ("binary operands created in reversed order", ("operator_dict", "                   for name, keys in zip(string.ascii_lowercase, keys_in)]\n            keys_out, func = do_codegen", "                   for name, keys in zip(string.ascii_lowercase, reversed(keys_in))]\n            keys_out, func = do_codegen")),
     ("both operands share one name", ("operator_dict", "            mvs = [self.algebra.multivector(name=name, keys=keys, symbolcls=self.codegen_symbolcls)", "            mvs = [self.algebra.multivector(name='a', keys=keys, symbolcls=self.codegen_symbolcls)")),
